@@ -11,7 +11,7 @@ import numpy as np
 import core
 
 RULE = ("direction grids: every algorithm (ico, cube3D, randomS) x N (quick: 4..20 densely plus 25/42/43, thorough: up to 162 incl. "
-        "partial-level N) x radial grids with T in 1..7 (T=1 only as the F5 corpus and a few generated), strictly increasing "
+        "partial-level N; plus randomS_240 and seed-chosen randomS N in 200..300 with 2-3 shells) x radial grids with T in 1..7 (T=1 only as the F5 corpus and a few generated), strictly increasing "
         "positive radii with unequal increments, written as '[..]' lists (decimal, repr-float, int, scientific; sorted, reversed "
         "or shuffled), 'linspace(a,b,n)' and 'range(a,b,step)' (ascending and descending); getters called in a random order, one "
         "of them twice; plus radial grids outside the quantifier for the correspondence only: rejected ones (duplicate, negative, "
@@ -187,6 +187,10 @@ def cases(ctx):
             return
     for alg, N in big:
         yield grid_case(rng, alg, N, rng.choice([3, 4, 6]))
+    # --- large random direction grids: many short Voronoi edges (randomS_240 has one of arc length 1.66e-5); few shells ---
+    yield grid_case(rng, "randomS", 240, rng.choice([2, 3]))
+    for _ in range(1 if ctx.quick else 6):
+        yield grid_case(rng, "randomS", rng.randint(200, 300), rng.choice([2, 3]))
 
 
 # ----------------------------------------------------------------------------------------------------------------
@@ -413,6 +417,29 @@ def shell_boundaries(r):
     return [(r[k] + r[k + 1]) / 2 for k in range(T - 1)] + [r[-1] + (r[-1] - r[-2]) / 2]
 
 
+ARC_MARGIN = 1e-9   # the independent oracle leaves a pair undecided when its common boundary arc is within this of zero
+_TRUTH = {}
+
+
+def sphere_truth(name, pts):
+    """Independent notion of "adjacent on the sphere", from the direction points alone (harness/props/c03.true_arcs: for
+    every ordered pair the length of the common boundary arc of the two nearest-neighbour regions; handles the degenerate
+    corners of the polytope grids, where four or more cells meet in a point and the arc is 0).
+    -> (arc length matrix, adjacent, undecided)"""
+    key = (name, pts.shape, hash(pts.tobytes()))
+    if key not in _TRUTH:
+        from props.c03 import true_arcs
+        L = true_arcs(pts)[0]
+        L = np.minimum(L, L.T)   # the two ordered evaluations agree to ~1e-13; be conservative
+        off = ~np.eye(len(pts), dtype=bool)
+        und = (np.abs(L) <= ARC_MARGIN) & off
+        if len(_TRUTH) > 64:
+            _TRUTH.clear()
+        _TRUTH[key] = (L, (L > ARC_MARGIN) & off, und)
+    return _TRUTH[key]
+
+
+
 def _dense_of(coo, n):
     a = np.zeros((n, n))
     np.add.at(a, (np.array(coo["row"], dtype=int), np.array(coo["col"], dtype=int)), np.array(coo["data"], dtype=float))
@@ -493,6 +520,10 @@ def oracle(ctx, case, out):
         # the statement's "exactly when adjacent" presupposes positive arcs/angles on exactly the adjacent pairs (C03's subject)
         ctx.branch("excluded_degenerate_unit_sphere_input")
         return
+    # independent of every molgri getter: which directions are adjacent on the sphere, and the arc they share
+    Ltrue, adj_true, undecided = sphere_truth(case["o"], pts)
+    if undecided.any():
+        ctx.branch("excluded_direction_pairs_with_arc_within_1e-9_of_zero", int(undecided.sum()))
     kk = np.arange(n) // n_o
     oo = np.arange(n) % n_o
     # --- volumes -------------------------------------------------------------------------------------------------
@@ -540,6 +571,28 @@ def oracle(ctx, case, out):
 
     def where(p, q):
         return f"cells {p} (shell {p // n_o}, direction {p % n_o}) and {q} (shell {q // n_o}, direction {q % n_o})"
+    # "exactly when o and o' are adjacent on the sphere ... no other neighbours", against the independent notion of adjacency
+    same_k = kk[:, None] == kk[None, :]
+    decided = ~(same_k & undecided[oo[:, None], oo[None, :]])
+    EA_true = up | up.T | (same_k & adj_true[oo[:, None], oo[None, :]])
+    for gname, G in (("adjacency", A), ("borders", B != 0), ("distances", D != 0)):
+        wrong = (G != EA_true) & decided
+        if wrong.any():
+            p, q = (int(x) for x in np.argwhere(wrong)[0])
+            o1, o2 = p % n_o, q % n_o
+            if EA_true[p, q]:
+                what = (f"{where(p, q)} are adjacent on the sphere (their cells share a boundary arc of length "
+                        f"{Ltrue[o1, o2]:.6e}, computed from the direction points) but are NOT neighbours in {gname}")
+            else:
+                what = f"{where(p, q)} are neighbours in {gname} but not adjacent on the sphere (nor radially)"
+            ctx.fail("C05:neighbours_vs_sphere", what + f"; {int(wrong.sum())} wrong entries", ci, bool(EA_true[p, q]), bool(G[p, q]))
+            return
+    badarc = adjS & adj_true & (np.abs(arc - Ltrue) > 1e-8)
+    if badarc.any():
+        o1, o2 = (int(x) for x in np.argwhere(badarc)[0])
+        ctx.fail("C05:sphere_arc", f"directions {o1} and {o2}: the unit-sphere border arc differs from the length of the common "
+                 "boundary of the two cells computed from the direction points", ci, float(Ltrue[o1, o2]), float(arc[o1, o2]))
+        return
     if (A != EA).any():
         p, q = (int(x) for x in np.argwhere(A != EA)[0])
         ctx.fail("C05:adjacency", f"{where(p, q)}: adjacency {bool(A[p, q])}, but the statement says {bool(EA[p, q])}", ci,
@@ -634,6 +687,9 @@ def run(ctx):
     ctx.note("excluded from the oracle (counted in input_distribution): radial grids outside the quantifier (rejected: duplicate/"
              "negative/empty; accepted: zero first radius; only the correspondence with the model is checked) and direction grids whose unit-sphere arcs/angles are "
              "not non-zero on exactly the adjacent pairs (none in the explored range)")
+    ctx.note("'adjacent on the sphere' in the oracle is independent of molgri: length of the common boundary arc of the two nearest-"
+             "neighbour regions computed from the direction points (props.c03.true_arcs); pairs whose arc is within 1e-9 of zero "
+             "(degenerate corners of polytope grids) are left undecided and counted; unit-sphere arcs are compared with it to 1e-8")
     ctx.note("range(a,b,step) texts are generated with the stop half a step beyond the last element (np.arange length decisions "
              "within one ulp of an integer quotient are C16's model boundary)")
 
